@@ -9,4 +9,4 @@ CONSTANTS
   FmtLen = 2
   WideLen = 2
   Tuples = {1, 2, 3, 4, 5, 6}
-  Modes = {"prog", "opc", "hdr", "wide"}
+  Modes = {"prog", "opc", "hdr", "wide", "seq"}
